@@ -3,6 +3,7 @@ CONSTANTS
   Family = "RND"
   Depth = 4
   RndN = 5
+  Mutators = TRUE
   RndK = 6
 INVARIANT TypeOK
 INVARIANT Emit
